@@ -3,6 +3,7 @@ CONSTANTS
   Mutant = "none"
   MaxOps = 2
   WithUpperCaseDesc = FALSE
+  WithNoContent = FALSE
   SmallSec = FALSE
 INVARIANTS ValidateExact ServingConsequence
 CHECK_DEADLOCK FALSE
